@@ -373,7 +373,7 @@ def _scalars(rng, n_random=12):
     return vals
 
 
-_FAMS = {"ED": ["ed"], "RIS": ["ris"], "MONT": ["mont"], "SG": ["sc"], "S64": ["sc"], "S32": ["sc"], "SGR": ["sc", "edmul"], "SM": ["edmul"], "SM2": ["edmul"], "MSM": ["edmul"], "VSM": ["edmul"], "VMSM": ["edmul"], "AVX2E": ["ed", "edmul"], "AVX2F": ["ed", "edmul"],
+_FAMS = {"ED": ["ed"], "RIS": ["ris"], "MONT": ["mont"], "SG": ["sc"], "S64": ["sc"], "S32": ["sc"], "SGR": ["sc", "edmul"], "SM": ["edmul"], "SM2": ["edmul", "ed"], "MSM": ["edmul"], "VSM": ["edmul"], "VMSM": ["edmul"], "AVX2E": ["ed", "edmul"], "AVX2F": ["ed", "edmul"],
             "SIG": ["sig", "slices"], "BV": ["sig", "slices"], "K-SERDE": ["serde"], "RIS2": ["ris", "edmul"], "SMNT": ["edmul", "sig"], "IFMAE": ["ed", "edmul"], "IFMAF": ["ed", "edmul"], "GRP": ["grp", "ed", "ris"], "FG": ["ed", "ris"], "F64": ["ed"], "F32": ["ed"]}
 
 
@@ -485,7 +485,7 @@ def _refute_papi_1(unit, fn, repo, seed, backend):
             add("ed.mul_base %s" % _h(sb), _h(O.ed_encode(O.ed_mul(s, O.B))))
             for (b1, a1) in pts:
                 add("ed.mul %s %s" % (_h(b1), _h(sb)), _h(O.ed_encode(O.ed_mul(s, a1))))
-            for t in (1, 127, 2**255 - 1, O.L - 1, 2**253 + 5, 2**255 - 8):
+            for t in (0, 1, 127, 2**255 - 1, O.L - 1, 2**253 + 5, 2**255 - 8):
                 (b1, a1) = pts[(s + t) % len(pts)]
                 add("ed.double_base %s %s %s" % (_h(b1), _h(sb), _h(t.to_bytes(32, "little"))),
                     _h(O.ed_encode(O.ed_add(O.ed_mul(s, a1), O.ed_mul(t, O.B)))))
